@@ -1,3 +1,4 @@
+@classmethod
 def spec(cls, loc, scale):
     loc, scale = astensors(loc, scale, conversion=lambda x: torch.tensor(x).float())
     scalesq = scale ** 2
